@@ -597,6 +597,25 @@ def D40(tmp):
     return bool(bad), "second assemble() on the same creator object: " + ("; ".join(bad) or "identical metafiles")
 
 
+def D41(tmp):
+    """the interactive editor with no edit at all (edit, <metafile>, DONE) must leave the metafile unchanged"""
+    d = os.path.join(tmp, "p")
+    _mk(d, {"a": 30000})
+    mf = os.path.join(tmp, "m.torrent")
+    _create("TorrentFile", d, mf, piece_length=PL, announce=["http://t/a", "http://t/b"], comment="c", private=True)
+    before = open(mf, "rb").read()
+    from torrentfile.interactive import select_action
+    old = sys.stdin
+    sys.stdin = io.StringIO(f"edit\n{mf}\nDONE\n")
+    try:
+        _quiet(select_action)
+    finally:
+        sys.stdin = old
+    after = open(mf, "rb").read()
+    import pyben
+    return before != after, f"interactive edit dialog without any edit: announce now {pyben.loads(after).get('announce')!r}"
+
+
 # D27/D28: known findings of rebuild
 def D27(tmp):
     def scatter(d, src):
